@@ -237,7 +237,16 @@ def check_history(c):
     mo = guard(build_mode, c, cipher)
     last_ct = None
     c = dict(c)
+    sib = None
+    if c.get("sib"):
+        # a second mode object of the same kind over a cipher with another key (and another IV), built after mo
+        sc = dict(c, conf=CI.sibling(conf), iv=c["iv"][::-1], ops=())
+        sib = guard(build_mode, sc, guard(CI.make, sc["conf"]))
     for i, (what, M) in enumerate(c["ops"]):
+        if sib is not None and i % 2 == 1:
+            sm = (M + c["iv"] * 3)[:CI.BLOCK[conf["cipher"]] * 2]
+            if guard(sib.enc, sm) != one_op(dict(sc, M=sm), "enc", sm):
+                raise Violation("%s:history:sibling-object:enc-differs-from-fresh-object" % c["mode"], None, None)
         if what == "setup":
             # re-configure the counter of an existing CTR object through the public DefaultCounter.setup(); later
             # operations must behave like a fresh object configured with the new counter block
@@ -247,6 +256,12 @@ def check_history(c):
                 guard(mo.counter.setup, iv[:B // 2], iv[B // 2:])
                 c["iv"] = iv
                 last_ct = None
+            continue
+        if what == "bad-enc":
+            # an enc call that cannot be served (unpadded scheme with a partial block; a message shorter than a block for
+            # ciphertext stealing): refused or not, it is not judged; the operations after it are
+            B_ = CI.BLOCK[conf["cipher"]]
+            attempt(mo.enc, (M + b"x" * B_)[:B_ * (len(M) // B_) + 1 + len(M) % (B_ - 1)] if not c["mode"].startswith("CTS") else M[:B_ - 1])
             continue
         if what == "bad-dec":
             # a ciphertext no equally configured object can have produced (truncated by one byte, or shorter than a
@@ -279,11 +294,13 @@ def history_strategy(tier):
         h = B // 2
 
         def build(m, msgs, iv, kinds):
-            c = {"mode": m, "conf": conf, "iv": iv, "M": b""}
+            c = {"mode": m, "conf": conf, "iv": iv, "M": b"", "sib": iv[1] % 2}
             if m in ("ECB", "CBC"):
-                c["pad"] = "pkcs7"
+                c["pad"] = ["pkcs7", "pkcs7", "x923", "nopadding"][iv[0] % 4]
             ops = []
             for M, k in zip(msgs, kinds):
+                if c.get("pad") == "nopadding":
+                    M = M[:len(M) - len(M) % B]
                 if m.startswith("CTS") and len(M) < B:
                     M = (M + iv + iv)[:B + len(M) % 3]
                 ops.append((k, M))
@@ -291,7 +308,7 @@ def history_strategy(tier):
             return c
         return st.builds(build, st.sampled_from(["ECB", "CBC", "CTR", "CTS_ECB", "CTS_CBC"]),
                          st.lists(gen.blob_of(gen.length(B, 2)), min_size=2, max_size=4), gen.blob(B),
-                         st.lists(st.sampled_from(["enc", "enc", "dec", "dec", "dec-last", "dec-last", "setup", "bad-dec"]), min_size=4, max_size=4))
+                         st.lists(st.sampled_from(["enc", "enc", "dec", "dec", "dec-last", "dec-last", "setup", "bad-dec", "bad-enc"]), min_size=4, max_size=4))
     return CI.config_strategy(["des", "aes128", "tdea", "tf256"]).flatmap(for_conf)
 
 
@@ -308,7 +325,7 @@ FACETS = [
           rule="all 9 cipher configurations, all modes and paddings, lengths k*B + boundary residue, counter halves near wrap-around"),
     Facet("call-histories", check_history, strategy=history_strategy, budget={"quick": 1200, "thorough": 15000},
           shards={"quick": 16, "thorough": 32}, nontrivial=lambda c: len(c["ops"]) >= 2,
-          classify=lambda c: (c["mode"], "".join({"enc": "e", "dec": "d", "dec-last": "l", "setup": "s", "bad-dec": "x"}[k] for k, _ in c["ops"])),
-          rule="2..4 operations on ONE mode object: enc (== a fresh object's), dec of the ciphertext just produced, dec of a ciphertext that a fresh object produced for a different message, (CTR) re-configuring the counter with DefaultCounter.setup(), and a dec call on a truncated ciphertext (refused or not, the later operations are judged)"),
+          classify=lambda c: (c["mode"] + (":" + c["pad"] if c.get("pad") else ""), "".join({"enc": "e", "dec": "d", "dec-last": "l", "setup": "s", "bad-dec": "x", "bad-enc": "y"}[k] for k, _ in c["ops"])),
+          rule="2..4 operations on ONE mode object: enc (== a fresh object's), dec of the ciphertext just produced, dec of a ciphertext that a fresh object produced for a different message, (CTR) re-configuring the counter with DefaultCounter.setup(), a dec call on a truncated ciphertext and an enc call that cannot be served (partial block without padding, short message for ciphertext stealing) - refused or not, the later operations are judged; ECB/CBC with PKCS#7, X9.23 or no padding"),
 ]
 WEIGHT = {"length-sweep": 8, "random": 4}
